@@ -48,7 +48,7 @@ func c11Gen(rng *RNG) (pages []c11Page, kind string) {
 	if inverted {
 		height = 512
 	}
-	hdrKind := rng.Intn(8) // 0 none 1 same text 2 odd/even 3 jittered position 4 varying number in text 5 only on some pages 6 a title of its own on every page, struck twice 7 same text padded with blanks
+	hdrKind := rng.Intn(9) // 8: a running header of two lines, the lower one tall and low in the band; 0 none 1 same text 2 odd/even 3 jittered position 4 varying number in text 5 only on some pages 6 a title of its own on every page, struck twice 7 same text padded with blanks
 	ftrKind := rng.Intn(7) // 0 none, 1..5 page number styles, 6 fixed text footer
 	styles := []string{"%d", "Page %d", "- %d -", "%d of 9", "p. %d", "%d/9"}
 	if rng.Chance(1, 3) {
@@ -107,6 +107,12 @@ func c11Gen(rng *RNG) (pages []c11Page, kind string) {
 			p.frags = append(p.frags, c11Frag{72, top, 180, 12, t}, c11Frag{72 + rng.Intn(2), top, 180, 12, t})
 		case 7:
 			p.frags = append(p.frags, c11Frag{72, top, 180, 12, []string{"Padded Running Header ", " Padded Running Header", "  Padded Running Header  "}[rng.Intn(3)]})
+		case 8:
+			if !inverted {
+				p.frags = append(p.frags, c11Frag{72, top + 17, 180, 10, "Series Title Line"}, c11Frag{72, top - 45, 220, 20, "Tall Running Header"})
+			} else {
+				p.frags = append(p.frags, c11Frag{72, top, 180, 10, "Series Title Line"})
+			}
 		}
 		if ftrKind >= 1 && ftrKind <= 5 {
 			p.frags = append(p.frags, c11Frag{300, bottom, 40, 10, fmt.Sprintf(styles[ftrKind], pi+1)})
